@@ -2,6 +2,7 @@ package main
 
 import (
 	"bytes"
+	"errors"
 	"fmt"
 	"sync"
 
@@ -25,6 +26,7 @@ type sibCase struct {
 	M     int    `json:"siblings"`
 	Per   int    `json:"hooks_per_sibling"`
 	Order []int  `json:"order"` // loggers in the order used; M = the parent itself
+	Fail  bool   `json:"first_hook_of_each_registration_returns_an_error,omitempty"`
 }
 
 type sibRT struct {
@@ -44,6 +46,14 @@ func counter(p *int) func(zapcore.Entry) error {
 	return func(zapcore.Entry) error { *p++; return nil }
 }
 
+// failing counts and then reports an error (an audit hook that cannot reach its store): the
+// hooks registered after it still have to fire.
+func failing(p *int) func(zapcore.Entry) error {
+	return func(zapcore.Entry) error { *p++; return errHook }
+}
+
+var errHook = errors.New("hook failed")
+
 func buildSib(c sibCase) *sibRT {
 	s := &sibRT{c: c, errOut: &sink{}}
 	var leaf zapcore.Core
@@ -61,14 +71,22 @@ func buildSib(c sibCase) *sibRT {
 		s.sibN[j] = make([]int, c.Per)
 		var hs []func(zapcore.Entry) error
 		for h := 0; h < c.Per; h++ {
+			if c.Fail && h == 0 {
+				hs = append(hs, failing(&s.sibN[j][h]))
+				continue
+			}
 			hs = append(hs, counter(&s.sibN[j][h]))
 		}
 		return hs
 	}
+	pcounter := counter
+	if c.Fail {
+		pcounter = failing
+	}
 	if c.Mode == "zapcore.RegisterHooks" {
 		core := leaf
 		for i := 0; i < c.K; i++ {
-			core = zapcore.RegisterHooks(core, counter(&s.parentN[i]))
+			core = zapcore.RegisterHooks(core, pcounter(&s.parentN[i]))
 		}
 		for j := 0; j < c.M; j++ {
 			sc := zapcore.RegisterHooks(core, sibHooks(j)...)
@@ -80,7 +98,7 @@ func buildSib(c sibCase) *sibRT {
 	} else {
 		lg := zap.New(leaf, opts...)
 		for i := 0; i < c.K; i++ {
-			lg = lg.WithOptions(zap.Hooks(counter(&s.parentN[i])))
+			lg = lg.WithOptions(zap.Hooks(pcounter(&s.parentN[i])))
 		}
 		for j := 0; j < c.M; j++ {
 			sl := lg.WithOptions(zap.Hooks(sibHooks(j)...))
@@ -199,6 +217,9 @@ func runSibCase(rp *reporter, c sibCase) int64 {
 						})
 					}
 				}
+				if s.c.Fail {
+					s.errOut.reset() // failing hooks are reported there (C10's subject)
+				}
 				if s.errOut.writes != 0 {
 					rp.hit("hook-siblings:error-output-written", func() (string, any) { return desc() + ": " + string(s.errOut.buf), rep() })
 					s.errOut.reset()
@@ -236,7 +257,10 @@ func sibCases() []sibCase {
 				for m := 2; m <= 3; m++ {
 					for per := 1; per <= 2; per++ {
 						for _, ord := range permutations(m + 1) {
-							cs = append(cs, sibCase{leaf, mode, k, m, per, ord})
+							cs = append(cs, sibCase{Leaf: leaf, Mode: mode, K: k, M: m, Per: per, Order: ord})
+							if k <= 3 && per == 2 {
+								cs = append(cs, sibCase{Leaf: leaf, Mode: mode, K: k, M: m, Per: per, Order: ord, Fail: true})
+							}
 						}
 					}
 				}
